@@ -75,6 +75,17 @@ fn main() {
 
     let mut ctx = Ctx::new(&prop, tier, seed, shard, nshards, &profile);
     ctx.out_path = out.clone();
+    if prop != "C14" {
+        // seconds a single case may run (C14 has its own, per-call guard); an order of magnitude above the slowest
+        // legitimate case of the tier, and below the driver's shard watchdog
+        let limit = match (prop.as_str(), tier) {
+            ("C01", Tier::Quick) => 300,
+            ("C01", Tier::Thorough) => 7200,
+            (_, Tier::Quick) => 120,
+            (_, Tier::Thorough) => 1800,
+        };
+        ctx.start_case_watchdog(limit);
+    }
 
     // trusted-base self tests: a failure is inconclusive, never a violation
     match refhash::self_test() {
